@@ -13,7 +13,7 @@ def corpus(tier, seed):
     rng = random.Random(seed * 7907 + 2)
     specs = [("2 2 0 20", 1), ("3 2 0 20", 4), ("2 3 0 20", 4), ("4 2 1 25", 300), ("2 4 1 25", 200)]
     if tier == "thorough":
-        specs = [("2 2 0 20", 1), ("3 2 0 20", 1), ("2 3 0 20", 1), ("4 2 1 25", 20), ("2 4 1 25", 15), ("4 2 0 10", 150)]
+        specs = [("2 2 0 20", 1), ("3 2 0 20", 1), ("2 3 0 20", 1), ("4 2 1 25", 40), ("2 4 1 25", 30), ("4 2 0 10", 300)]
     outs = core.run_harness([f"treelist {a}" for a, _ in specs])
     progs = []
     for (a, stride), o in zip(specs, outs):
@@ -60,7 +60,7 @@ def rule_rich(tier, seed, have):
             continue
         leaves = [p for p in o.split(";") if p]
         rng.shuffle(leaves)
-        cand += [(rng.choice([300, 1000, 3000]), p) for p in leaves[:60000 if tier == "thorough" else 5000]]
+        cand += [(rng.choice([300, 1000, 3000]), p) for p in leaves[:30000 if tier == "thorough" else 5000]]
     for _ in range(20000 if tier == "thorough" else 2000):
         s, c = rng.choice([(5, 2), (3, 3), (2, 5), (6, 2), (3, 4), (4, 3)])
         cand.append((rng.choice([300, 1000, 3000]), core.rand_prog(rng, s, c, p_undef=rng.choice([0.0, 0.1]), normal=True)))
